@@ -70,6 +70,16 @@ theorem forRange_inv {σ : Type} (f : Nat → σ → Option σ) (P : Nat → σ 
     · have : start + (cnt + 1) = start + 1 + cnt := by omega
       rw [this]; exact p2
 
+/-- invariant rule for a loop followed by a continuation (the loop body is taken from the goal) -/
+theorem forRange_bind_inv {σ τ : Type} (f : Nat → σ → Option σ) (P : Nat → σ → Prop) (Q : τ → Prop)
+    (cnt start : Nat) (s : σ) (k : σ → Option τ) (h0 : P start s)
+    (hstep : ∀ i s, start ≤ i → i < start + cnt → P i s → ∃ s', f i s = some s' ∧ P (i + 1) s')
+    (hk : ∀ s', P (start + cnt) s' → ∃ r, k s' = some r ∧ Q r) :
+    ∃ r, (forRange f start cnt s).bind k = some r ∧ Q r := by
+  obtain ⟨s', e, hp⟩ := forRange_inv f P cnt start s h0 hstep
+  obtain ⟨r, er, hq⟩ := hk s' hp
+  exact ⟨r, by rw [e, Option.bind_some, er], hq⟩
+
 /-! ### `permute` -/
 
 /-- `FftInputs::permute` on `2^k` elements never panics and moves the element at the bit-reversed index
